@@ -58,8 +58,21 @@ Definition c01_table_oracle (comp : N) (c : sx) (evs : list ev) : bool :=
   | _ => c01_oracle c evs
   end.
 
+(* the generic table lets the caller overwrite any byte, the Length field included (C13): a history in which the caller
+   itself writes into bytes 4..8 is not a statement about the crate's bookkeeping and is not judged by C02 *)
+Definition sdt_writes_length (c : sx) : bool :=
+  match c with
+  | SL (_ :: ops) =>
+      existsb (fun o => match o with
+                        | SL [SA 3; SA off; SL bs] => (off <? 8) && (4 <? off + N.of_nat (length bs))
+                        | SL [SA 4; SA w; SA off; _] => (off <? 8) && (4 <? off + w)
+                        | _ => false end) ops
+  | _ => false
+  end.
+
 Definition c02_table_oracle (comp : N) (c : sx) (evs : list ev) : bool :=
   match comp with
+  | 31 => if sdt_writes_length c then true else c02_oracle c evs
   | 30 => forallb (fun e => match e with EvBytes img => (field_at img 20 4 =? 36) && Nat.eqb (length img) 36 | _ => true end) evs
   | 29 => forallb (fun e => match e with EvBytes img => (field_at img 4 4 =? 64) && Nat.eqb (length img) 64 | _ => true end) evs
   | _ => c02_oracle c evs
